@@ -1,0 +1,77 @@
+//go:build verif
+
+// Package verifhook provides named hook points for external runtime monitors.
+// With the `verif` build tag, At calls the handler registered for the point (if any). Handlers
+// are used to widen windows between critical sections (virtual-time sleeps), to record events and
+// to trigger concurrent actions. Call sites are only ever placed between critical sections.
+package verifhook
+
+import (
+	"sync"
+	"sync/atomic"
+)
+
+type Handler func(point string, arg any)
+
+var (
+	mu       sync.RWMutex
+	handlers map[string]Handler
+	hits     sync.Map // point -> *atomic.Int64
+	active   atomic.Bool
+)
+
+// Set registers (or with nil removes) the handler for a point.
+func Set(point string, h Handler) {
+	mu.Lock()
+	defer mu.Unlock()
+	if handlers == nil {
+		handlers = make(map[string]Handler)
+	}
+	if h == nil {
+		delete(handlers, point)
+	} else {
+		handlers[point] = h
+	}
+	active.Store(len(handlers) > 0)
+}
+
+// Reset removes all handlers.
+func Reset() {
+	mu.Lock()
+	handlers = nil
+	active.Store(false)
+	mu.Unlock()
+}
+
+// Hits returns how often a point was reached since process start.
+func Hits(point string) int64 {
+	if v, ok := hits.Load(point); ok {
+		return v.(*atomic.Int64).Load()
+	}
+	return 0
+}
+
+func count(point string) {
+	v, ok := hits.Load(point)
+	if !ok {
+		v, _ = hits.LoadOrStore(point, new(atomic.Int64))
+	}
+	v.(*atomic.Int64).Add(1)
+}
+
+// At marks a hook point.
+func At(point string) { AtArg(point, nil) }
+
+// AtArg marks a hook point that carries an argument.
+func AtArg(point string, arg any) {
+	count(point)
+	if !active.Load() {
+		return
+	}
+	mu.RLock()
+	h := handlers[point]
+	mu.RUnlock()
+	if h != nil {
+		h(point, arg)
+	}
+}
